@@ -292,12 +292,14 @@ class WriteZipFS(WrapFS):
 
     def close(self):
         # type: () -> None
-        if not self.isclosed():
-            try:
-                self.write_zip()
-            finally:
-                self._temp_fs.close()
-        super(WriteZipFS, self).close()
+        try:
+            if not self.isclosed():
+                try:
+                    self.write_zip()
+                finally:
+                    self._temp_fs.close()
+        finally:
+            super(WriteZipFS, self).close()
 
     def write_zip(
         self,
